@@ -93,7 +93,10 @@ class Snapshot:
                     continue
                 self.objs[id(o)] = o
                 for f in NODE_FIELDS:
-                    v = getattr(o, f, None)
+                    try:
+                        v = object.__getattribute__(o, f)
+                    except AttributeError:
+                        v = None
                     self.field[f][id(o)] = v
                     if f in ("_parent", "_children", "_tree", "_meta"):
                         todo.append(v)
@@ -130,11 +133,31 @@ class Snapshot:
                             self.pos[id(c)] = i
                             self.rank[id(c)] = self.rank[id(n)] + 1
                             stack.append(c)
+                # registered nodes that are not (yet) in a child list: depth from the parent chain
+                for n in list(self.objs.values()):
+                    if id(n) in self.rank or id(n) not in self.field["_parent"]:
+                        continue
+                    chain, m = [], n
+                    while m is not None and id(m) not in self.rank and len(chain) < 64:
+                        chain.append(m)
+                        m = self.field["_parent"].get(id(m))
+                    if m is not None and id(m) in self.rank and self.field["_tree"].get(id(n)) is o:
+                        r = self.rank[id(m)]
+                        for k in reversed(chain):
+                            r += 1
+                            self.rank[id(k)] = r
                 nbd = self.field["_nodes_by_data_id"].get(id(o))
                 for lst in (self.dicts.get(id(nbd), {}) if nbd is not None else {}).values():
                     if isinstance(lst, list):
                         for i, c in enumerate(self.lists.get(id(lst), ())):
                             self.cpos.setdefault(id(c), i)
+
+
+COMPONENT_NAMES = set(L.COMPONENTS)
+
+
+def snaps_of(ev):
+    return ev.snaps
 
 
 def val_eq(a, b) -> bool:
@@ -151,11 +174,14 @@ def val_eq(a, b) -> bool:
 
 # ---------------------------------------------------------------------------- evaluator
 class Evaluator:
-    def __init__(self, snaps: dict, consts: dict, max_len: int):
+    def __init__(self):
+        self.cache = {}  # term id -> (term, closure): closures look the world up when called, so they survive set_world()
+        self.snaps, self.consts, self.universe = {}, {}, {}
+
+    def set_world(self, snaps: dict, consts: dict, max_len: int):
         """snaps: heap-version tag ('0', 'rt1') -> Snapshot"""
         self.snaps = snaps
         self.consts = dict(consts)
-        self.cache = {}
         objs, lobjs, dobjs, vals = {}, {}, {}, []
         for s in snaps.values():
             objs.update(s.objs)
@@ -170,31 +196,31 @@ class Evaluator:
             "Ref": [None] + list(objs.values()), "LRef": [None] + list(lobjs.values()), "DRef": [None] + list(dobjs.values()),
             "Val": uv, "Int": list(range(-1, max_len + 2)), "Bool": [False, True],
         }
-        self.extra_vals(consts)
-
-    def extra_vals(self, consts):
-        for v in consts.values():
-            pass
 
     # -- interpretation of function symbols
     def heap_fn(self, name: str):
         comp, _, tag = name.partition("@")
-        if tag not in self.snaps and comp in L.COMPONENTS:
-            raise NotEvaluable(f"heap version {name}")
-        s = self.snaps[tag]
-        if comp in s.field:
-            d = s.field[comp]
-            return lambda o: d.get(id(o))
+        if comp not in COMPONENT_NAMES:
+            raise NotEvaluable(name)
+        snaps = self.snaps
+
+        def S():
+            try:
+                return snaps_of(self)[tag]
+            except KeyError:
+                raise NotEvaluable(f"heap version {name}") from None
+        if comp in NODE_FIELDS or comp in TREE_FIELDS:
+            return lambda o: S().field[comp].get(id(o))
         if comp == "llen":
-            return lambda l: len(s.lists.get(id(l), ()))
+            return lambda l: len(S().lists.get(id(l), ()))
         if comp == "litem":
             def litem(l, i):
-                c = s.lists.get(id(l), ())
+                c = S().lists.get(id(l), ())
                 return c[i] if 0 <= i < len(c) else None
             return litem
         if comp == "ddom":
             def ddom(d, k):
-                dd = s.dicts.get(id(d))
+                dd = S().dicts.get(id(d))
                 if dd is None:
                     return False
                 try:
@@ -204,7 +230,7 @@ class Evaluator:
             return ddom
         if comp in ("dref", "dlst", "dval"):
             def dget(d, k):
-                dd = s.dicts.get(id(d))
+                dd = S().dicts.get(id(d))
                 if dd is None:
                     return None
                 try:
@@ -213,18 +239,17 @@ class Evaluator:
                     return None
             return dget
         if comp == "dcard":
-            return lambda d: len(s.dicts.get(id(d), ()))
+            return lambda d: len(S().dicts.get(id(d), ()))
         if comp == "alloc":
-            return lambda o: id(o) in s.objs
+            return lambda o: id(o) in S().objs
         if comp == "lalloc":
-            return lambda l: id(l) in s.lobjs
+            return lambda l: id(l) in S().lobjs
         if comp == "dalloc":
-            return lambda d: id(d) in s.dobjs
+            return lambda d: id(d) in S().dobjs
         if comp in ("pos", "rank", "cpos"):
-            g = getattr(s, comp)
-            return lambda o: g.get(id(o), 0)
+            return lambda o: getattr(S(), comp).get(id(o), 0)
         if comp == "held":
-            return lambda o: 0
+            raise NotEvaluable("ghost lock depth")
         raise NotEvaluable(name)
 
     def spec_fn(self, name: str):
@@ -292,11 +317,12 @@ class Evaluator:
     # -- compilation of formulas into closures over the bound-variable stack
     def compile(self, e):
         key = e.get_id()
-        f = self.cache.get(key)
-        if f is None:
+        hit = self.cache.get(key)
+        if hit is None:
             f = self._compile(e)
-            self.cache[key] = f
-        return f
+            self.cache[key] = (e, f)  # keep the term alive: z3 re-uses the ids of collected terms
+            return f
+        return hit[1]
 
     def sort_universe(self, s):
         n = s.name()
@@ -307,14 +333,17 @@ class Evaluator:
     def _compile(self, e):
         if z3.is_quantifier(e):
             n = e.num_vars()
-            unis = [self.sort_universe(e.var_sort(i)) for i in range(n)]
+            sorts = [e.var_sort(i).name() for i in range(n)]
+            for sn in sorts:
+                if sn not in ("Ref", "LRef", "DRef", "Val", "Int", "Bool"):
+                    raise NotEvaluable(f"quantifier over sort {sn}")
             body = self.compile(e.body())
             fa = e.is_forall()
             if not fa and not e.is_exists():
                 raise NotEvaluable("lambda")
 
-            def q(env, unis=unis, body=body, fa=fa):
-                for combo in itertools.product(*unis):
+            def q(env, sorts=sorts, body=body, fa=fa):
+                for combo in itertools.product(*[self.universe[sn] for sn in sorts]):
                     r = body(env + list(combo))
                     if fa and not r:
                         return False
@@ -384,11 +413,26 @@ class Evaluator:
         if k == K.Z3_OP_UNINTERPRETED:
             name = e.decl().name()
             if not ch:
-                if name not in self.consts:
-                    raise NotEvaluable(f"free constant {name}")
-                v = self.consts[name]
-                return lambda env: v
-            fn = self.seq_fn(name) or self.spec_fn(name)
+                if name.startswith("str!"):
+                    from .exprs import STR_CONSTS
+
+                    for lit, c in STR_CONSTS.items():
+                        if c.decl().name() == name:
+                            return lambda env, lit=lit: lit
+                def const(env, name=name):
+                    try:
+                        return self.consts[name]
+                    except KeyError:
+                        raise NotEvaluable(f"free constant {name}") from None
+                return const
+            try:
+                fn = self.seq_fn(name) or self.spec_fn(name)
+            except NotEvaluable as e:
+                msg = str(e)
+
+                def lazy(env, msg=msg):  # only an error if this sub-term is actually needed
+                    raise NotEvaluable(msg)
+                return lazy
             return lambda env: fn(*[c(env) for c in ch])
         raise NotEvaluable(f"operator {e.decl().name()}")
 
